@@ -1551,4 +1551,22 @@ theorem code_eq_self (l : List Char) (h : '!' ∉ l) : code l = l := by
 theorem flaggedC_eq_flagged (l : List Char) (h : '!' ∉ l) (hr : isRem l = false) : flaggedC l = flagged l := by
   simp [flaggedC, hr, code_eq_self l h]
 
+/-- a DSR command (`REM DSR PUT/REPLACE …`) is the one kind of remark that is continued: on it the comment-aware reading
+    is the proven plain one as well, so `wrap_width`, `wrap_shape` and `wrap_tokens` say for a DSR command of any length
+    what they say for an instruction (the writer must pass it through `wrapLine` like everything else). -/
+theorem flaggedC_eq_flagged_dsr (l : List Char) (h : '!' ∉ l) (hd : isDsr l = true) : flaggedC l = flagged l := by
+  simp [flaggedC, hd, code_eq_self l h]
+
+/-- an ordinary remark is never continued, whatever it ends in -/
+theorem flaggedC_rem (l : List Char) (hr : isRem l = true) (hd : isDsr l = false) : flaggedC l = false := by
+  simp [flaggedC, hr, hd]
+
+example : isDsr "REM DSR PUT OC(CF3)3 WITH O1 C1 C2 ON C1 C2 C3 PART 2 OCC -31 =".toList = true := by decide
+example : isDsr "rem  dsr  replace TOLUENE with C1".toList = true := by decide
+example : isDsr "REM DSR was used =".toList = false := by decide
+example : isDsr " REM DSR PUT TOL".toList = false := by decide
+example : (logicalC "REM DSR PUT TOL WITH C1 =\n  C2 C3\nREM a =\n  b\n".toList).map (·.map tokens)
+    = some [["REM", "DSR", "PUT", "TOL", "WITH", "C1", "C2", "C3"].map String.toList, ["REM", "a", "="].map String.toList] := by
+  decide +kernel
+
 end Shelx.C06
